@@ -15,10 +15,24 @@ Theorem c03_chunk_contract : forall e, src_env e -> fused e -> forall progs, wf_
 Proof. exact all_C03. Qed.
 Print Assumptions c03_chunk_contract.
 
-(** a wrapped iterator that is not fused: the chunk contract holds on every run on which the wrapped next() has not yet answered None although elements remain; after such an answer a chunk may be short in the middle of the source and carry an index that is not the position of its first element ([Examples.gap_breaks_the_mixed_accounting]) *)
+(** a wrapped iterator that is not fused: the chunk contract holds on every run on which the wrapped next() has not yet answered None although elements remain; after such an answer a chunk may be short in the middle of the source ([Examples.gap_hypotheses_hold]); its index is the position of its first element all the same, and the contract holds with the length of the source replaced by the number of elements yielded before that answer: [c03_chunk_contract_any_iterator] below *)
 Theorem c03_chunk_contract_until_first_gap : forall e, iter_env e -> forall progs, wf_progs progs -> forall sched,
   nowrap (c_labels (exec e (init progs) sched)) ->
   gap_free e (s_calls (c_sh (exec e (init progs) sched))) ->
   check_prop 3 e (c_trace (exec e (init progs) sched)) (c_labels (exec e (init progs) sched)) = true.
 Proof. exact iter_C03_until_gap. Qed.
 Print Assumptions c03_chunk_contract_until_first_gap.
+
+(** ** after the repair of the waiting loop (a thread that finds its ticket at the yielded counter looks at
+    the completed flag once more before it uses the wrapped iterator): nothing is delivered after the first
+    None of the wrapped iterator, premature or not ([C07.c07_no_call_after_none]) *)
+From OCI.proofs Require Import AfterNone.
+
+(** a wrapped iterator whose first premature None is the answer to call number [g]: the chunk contract on
+    EVERY run, a chunk being short only at the end of what the wrapped iterator yields before that call
+    ([cut e g]: [e] with [e_len := min (e_len e) g], fused) *)
+Theorem c03_chunk_contract_any_iterator : forall e, iter_env e -> forall g, first_gap e g -> forall progs, wf_progs progs -> forall sched,
+  nowrap (c_labels (exec e (init progs) sched)) ->
+  check_prop 3 (cut e g) (c_trace (exec e (init progs) sched)) (c_labels (exec e (init progs) sched)) = true.
+Proof. exact iter_C03_after_gap. Qed.
+Print Assumptions c03_chunk_contract_any_iterator.
